@@ -450,6 +450,24 @@ class TU:
         cs = real or cs
         if inst is not None:
             cs = [c for c in cs if inst in (c.get('_inst') or '')]
+        if not cs and '::' not in qual and inst is None:
+            # a struct declared inside a function body (its type is printed without a scope): found by a walk over the bodies, once
+            if not hasattr(self, '_local_classes'):
+                self._local_classes = {}
+
+                def walk(n):
+                    if isinstance(n, dict):
+                        if n.get('kind') == 'DeclStmt':
+                            for d in n.get('inner', []):
+                                if d.get('kind') == 'CXXRecordDecl' and d.get('name') and d.get('completeDefinition'):
+                                    self._local_classes.setdefault(d['name'], d)
+                        for v in n.get('inner', []) or []:
+                            walk(v)
+                for fs in self.funcs.values():
+                    for f in fs:
+                        walk(f.node)
+            if qual in self._local_classes:
+                return self._local_classes[qual]
         if not cs:
             raise AnalysisError('anchor vanished: no definition of class %s' % qual)
         return cs[0]
